@@ -760,6 +760,15 @@ func c19KeysRun(out *c19Out, raw []byte) {
 	for f := range faults {
 		out.Class("server/" + f)
 	}
+	nothing := 0
+	for _, sv := range c.Servers {
+		if !sv.Local && (sv.Fault == "err+notary-err" || sv.Fault == "bad+notary-missing" || sv.Fault == "err+notary-other") {
+			nothing++
+		}
+	}
+	if nothing >= 64 {
+		out.Class("servers-that-give-nothing/64-or-more (as many as the pool has workers)")
+	}
 	widest := 0
 	for _, rec := range allFetches {
 		if len(rec.Servers) > widest {
@@ -794,9 +803,16 @@ func c19KeysCheck(ctx *vfCtx, c c19KeysCase) { c19Check(ctx, "keys", c) }
 // union of the succeeded servers' results, every verdict as expected, and no reproducible hang.
 var c19WideSizes = []int{63, 64, 65, 66, 100, 130}
 
-func c19KeysWideCase(n int, kind string, db bool) c19KeysCase {
+// c19WideHeavy: sizes of the batches in which two servers of three give nothing at all (neither
+// directly nor through the notary-style request): more failing servers than the pool has workers.
+var c19WideHeavy = []int{110, 200}
+
+func c19KeysWideCase(n int, kind string, db bool, heavy bool) c19KeysCase {
 	c := c19KeysCase{DB: db, Free: true}
 	faults := []string{"ok", "err+notary-ok", "ok", "bad+notary-ok", "ok", "err+notary-err", "ok", "bad+notary-missing", "ok", "err+notary-other"}
+	if heavy {
+		faults = []string{"ok", "err+notary-err", "bad+notary-missing", "ok", "err+notary-other", "err+notary-err"}
+	}
 	// server 0 is the local one: the batch names n distinct NON-local servers
 	c.Servers = append(c.Servers, c19KeySrv{Fault: "ok", NKeys: 1, Local: true})
 	for i := 1; i <= n; i++ {
@@ -821,11 +837,29 @@ func c19KeysWideEnum(size, shard, nshards int, emit func(c19KeysCase)) {
 		var variants []c19KeysCase
 		if size <= 1 {
 			// quick: one case per size, alternating the kind of the wide batch (4 of the 6 sizes are above 64)
-			variants = append(variants, c19KeysWideCase(servers, []string{"fetch", "verify"}[i%2], i%2 == 0))
+			variants = append(variants, c19KeysWideCase(servers, []string{"fetch", "verify"}[i%2], i%2 == 0, false))
 		} else {
 			for _, kind := range []string{"fetch", "verify"} {
 				for _, db := range []bool{false, true} {
-					variants = append(variants, c19KeysWideCase(servers, kind, db))
+					variants = append(variants, c19KeysWideCase(servers, kind, db, false))
+				}
+			}
+		}
+		for _, v := range variants {
+			if n%nshards == shard {
+				emit(v)
+			}
+			n++
+		}
+	}
+	for i, servers := range c19WideHeavy {
+		var variants []c19KeysCase
+		if size <= 1 {
+			variants = append(variants, c19KeysWideCase(servers, []string{"fetch", "verify"}[i%2], i%2 == 1, true))
+		} else {
+			for _, kind := range []string{"fetch", "verify"} {
+				for _, db := range []bool{false, true} {
+					variants = append(variants, c19KeysWideCase(servers, kind, db, true))
 				}
 			}
 		}
@@ -841,7 +875,7 @@ func c19KeysWideEnum(size, shard, nshards int, emit func(c19KeysCase)) {
 func init() {
 	c19Scenarios["keys"] = c19KeysRun
 	vfEnum("C19/keys-wide",
-		"one FetchKeys / VerifyJSONs batch names 63-130 distinct non-local servers (around and beyond the 64 workers of the pool) while a second goroutine uses the same ring",
+		"one FetchKeys / VerifyJSONs batch names 63-200 distinct non-local servers (around and beyond the 64 workers of the pool; in the two largest, more than 64 servers give nothing) while a second goroutine uses the same ring",
 		1, 2, 4, c19KeysWideEnum, c19KeysCheck)
 	vfRapid("C19/keys",
 		"at least two key requests of the one DirectKeyFetcher are in flight (parked in the key client) at the same time",
